@@ -163,7 +163,7 @@ def looptop_rule(ctx, rep, flag=None, helper=None):
         # the constructor starts the thread it builds (directly or through a factory helper)
         o_, cinit = owner.lookup("__init__")
         if cinit is not None:
-            cps, cit = ctx.paths(cinit, owner, depth=2, inline=lambda callee, ev, path: callee.name != "__init__" and (callee is initfi or (callee.owner is not None and callee.owner in owner.mro())))
+            cps, cit = ctx.paths(cinit, owner, depth=2, inline=lambda callee, ev, path: callee.name != "__init__" and (callee is initfi or callee.key in ctx.types.thread_factories or (callee.owner is not None and callee.owner in owner.mro())))
             for cp in cps:
                 if cp.status == "raise":
                     continue
